@@ -25,7 +25,7 @@ pub const ASSUMPTIONS: &[&str] = &[
 
 pub const RULE: &str = "redeemer types from the typed generator's serialisable fragment (user data types with several constructors and fields incl. records, generic instantiations and recursive ones, Option, lists, tuples, lists of pairs, Bool, Int, ByteArray, Void, Data, nested to depth 3); for each type 40 Data values: encodings of generated values of the type, near misses obtained by one mutation (constructor tag changed incl. into another CBOR tag range, a field dropped / added / swapped, a leaf kind changed, list <-> map, constructor <-> list, one more or fewer tuple element) and arbitrary Data. Non-trivial = the type has at least two constructors or a nested container and the value is a near miss below the root, or a conforming value with at least 3 nodes; distinct by (type declarations, value).";
 
-fn no_standalone_pair(t: &Ty, inside_list: bool) -> bool {
+pub fn no_standalone_pair(t: &Ty, inside_list: bool) -> bool {
     match t {
         Ty::Pair(a, b) => inside_list && no_standalone_pair(a, false) && no_standalone_pair(b, false),
         Ty::List(e) => no_standalone_pair(e, true),
@@ -36,7 +36,7 @@ fn no_standalone_pair(t: &Ty, inside_list: bool) -> bool {
     }
 }
 
-fn adt_fields_ok(m: &Module) -> bool {
+pub fn adt_fields_ok(m: &Module) -> bool {
     m.adts.iter().all(|a| a.ctors.iter().all(|c| c.fields.iter().all(|(_, t)| no_standalone_pair(t, false) || matches!(t, Ty::Var(_)))))
 }
 
